@@ -529,6 +529,23 @@ theorem C11_overlay_bytes (kf : Nat × List Char) (hkf : kf ∈ overlayWriterFac
   apply overlay_bytes overlayFaceCount r w o idx (by omega) hmid hshape.2 hshape.1
   rw [ho]; exact hnorm
 
+/-- **Brush models + PHYSCOLLIDE.** Writer as coded (model list by `find_or_insert` starting with
+worldspawn's model, head node by `find_or_insert`, faces by `find_or_extend`, one physics section per
+model that has keyvalues or solids, sentinel) → MODELS records and PHYSCOLLIDE bytes → reader as coded
+(section loop, `rstrip(b'\0')` of the text, "two definitions" check) = the models; the index given to
+every brush entity addresses its own model. Hypotheses (`BModelV.ok`): a model with solids has
+keyvalues (else the reader returns an empty keyvalues object instead of `None`), the text does not
+end in NUL. -/
+theorem C11_bmodels (md : Nat → BModelV) (hmd : ∀ x, (md x).ok) (h9 : ∀ x, (md x).floats.length = 9)
+    (nodes faces : List Nat) (world : Nat) (entModels idx ml nodes' faces' fn ff : List Nat)
+    (recs : List (List Val)) (phys : Bytes) (fuel : Nat)
+    (h : writeBModels true md nodes faces world entModels = .ok (idx, recs, phys, ml, nodes', faces'))
+    (hfuel : ml.length < fuel) (hn : nodes' <+: fn) (hf : faces' <+: ff) :
+    readBModels fuel fn ff recs phys = .ok (ml.map md) ∧ resolveArr ml idx = .ok entModels ∧ ml[0]? = some world :=
+  ⟨(bmodels_roundtrip md hmd h9 nodes faces world entModels idx ml nodes' faces' fn ff recs phys fuel h hfuel hn hf).1,
+   (bmodels_roundtrip md hmd h9 nodes faces world entModels idx ml nodes' faces' fn ff recs phys fuel h hfuel hn hf).2.1,
+   (bmodels_roundtrip md hmd h9 nodes faces world entModels idx ml nodes' faces' fn ff recs phys fuel h hfuel hn hf).2.2.1⟩
+
 /-- the records of brushes, sides, leafs and nodes have the shapes `C11_gen_xref_shapes` speaks about
 (so `C11_lump_bytes` applies to them) -/
 theorem C11_xref_record_shapes (vit : Bool) (sd : Nat → SideV) (t : BrushTabs) (bs : List BrushV)
